@@ -75,8 +75,11 @@ def stale_link_handle(v, h):
 
 
 def run(ctx):
-    return storeprop.run(ctx, ID, THEOREMS, "Props/C02.v", PROFILE, (28, 40), 100, 900, predicate, RULE,
-                         known_matchers={"stale_link_handle": stale_link_handle})
+    st = storeprop.run(ctx, ID, THEOREMS, "Props/C02.v", PROFILE, (28, 40), 100, 900, predicate, RULE,
+                       known_matchers={"stale_link_handle": stale_link_handle}, extra_targets=["Pure/TableCheck.vo"])
+    from props import c16
+    ctx.coverage.update(c16.frame_stage(ctx, st, 600 if ctx.tier == "thorough" else 90, "last write wins independently of the objects used, and reopening shows it"))
+    return st
 
 
 def replay(ctx):
